@@ -273,7 +273,7 @@ pub fn exec(sc: &Sc) -> Outcome {
 }
 
 pub fn scenarios(tier: Tier) -> Vec<Sc> {
-    let thorough = tier == Tier::Thorough;
+    let thorough = tier >= Tier::Thorough;
     let mut unknown_types: Vec<u64> = vec![0x3f, 0x4242, (1 << 30) + 5, rc::VARINT_MAX - 1];
     let grease_types: Vec<u64> = vec![0x21, 0x21 + 0x1f * 2, 0x21 + 0x1f * 1000, 0x21 + 0x1f * ((1u64 << 31) / 0x1f), 0x21 + 0x1f * ((rc::VARINT_MAX - 0x21) / 0x1f)];
     while rc::reg::is_grease(unknown_types[3]) {
